@@ -115,6 +115,31 @@ def cmpFn? : String → Option CmpFn
 def unFn? : String → Option UnFn
   | "neg" => some .neg | "pos" => some .pos | "abs" => some .abs | _ => none
 
+def statFn? : String → Option StatFn
+  | "sum" => some .sum | "prod" => some .prod | "mean" => some .mean | "min" => some .min | "max" => some .max
+  | "nansum" => some .nansum | "nanprod" => some .nanprod | "nanmean" => some .nanmean
+  | "nanmin" => some .nanmin | "nanmax" => some .nanmax | _ => none
+
+def movFn? : String → Option MovFn
+  | "sum" => some .sum | "avg" => some .avg | "prod" => some .prod | _ => none
+
+def optInt? (s : String) : Option (Option Int) := if s = "-" then some none else s.toInt?.map some
+
+def fillMethod? (m arg : String) : Option FillMethod :=
+  match m with
+  | "constant" => (cell? arg).map .constant
+  | "next" => some .next | "previous" => some .previous | "nearest" => some .nearest | "linear" => some .linear
+  | _ => none
+
+def testFn? (t c : String) : Option TestFn :=
+  match t with
+  | "isnan" => some .isnan
+  | _ => do
+    let q ← parseRat? c
+    match t with
+    | "lt" => some (.lt q) | "le" => some (.le q) | "gt" => some (.gt q) | "ge" => some (.ge q)
+    | "eq" => some (.eq q) | "ne" => some (.ne q) | _ => none
+
 def parseOp (ws : List String) : Option Op :=
   match ws with
   | ["new", k, f, nv] => do pure (.new (← k.toNat?) (← Freq.ofLetter? f) (← nv.toNat?))
@@ -141,6 +166,13 @@ def parseOp (ws : List String) : Option Op :=
   | ["trim", i] => do pure (.trim (← i.toNat?))
   | ["empty", i] => do pure (.empty (← i.toNat?))
   | ["copy", k, i] => do pure (.copy (← k.toNat?) (← i.toNat?))
+  | ["stat", k, f, i] => do pure (.stat (← k.toNat?) (← i.toNat?) (← statFn? f))
+  | ["mstat", i, f] => do pure (.stat (← i.toNat?) (← i.toNat?) (← statFn? f))
+  | ["mov", k, f, i, w] => do pure (.mov (← k.toNat?) (← i.toNat?) (← movFn? f) (← optInt? w))
+  | ["mmov", i, f, w] => do pure (.mov (← i.toNat?) (← i.toNat?) (← movFn? f) (← optInt? w))
+  | ["fill", k, i, m, arg, d] => do pure (.fill (← k.toNat?) (← i.toNat?) (← fillMethod? m arg) (← dates? d))
+  | ["mfill", i, m, arg, d] => do pure (.fill (← i.toNat?) (← i.toNat?) (← fillMethod? m arg) (← dates? d))
+  | ["rw", i, t, c, new] => do pure (.replaceWhere (← i.toNat?) (← testFn? t c) (← cell? new))
   | _ => none
 
 def runOps (p : Pool) : List String → List String
